@@ -1,13 +1,13 @@
 typedef unsigned long u64;
-u64 ga = 768; u64 gb = 162; u64 gc_[4] = {1,2,3,815}; static u64 sa = 11; static u64 sb[3] = {32,5,6};
+u64 ga = 688; u64 gb = 837; u64 gc_[4] = {1,2,3,68}; static u64 sa = 877; static u64 sb[3] = {317,5,6};
 __thread u64 tva = 3; __thread u64 tvb = 4;
 extern u64 ext_a, ext_b; extern u64 ext_f(u64); extern u64 ext_g(u64);
-__attribute__((noinline)) u64 fn0(u64 x) { return x * 127 + ga + sb[0]; }
-__attribute__((noinline)) static u64 sf0(u64 x) { return (x ^ 768) + sa + gb; }
-__attribute__((noinline)) u64 fn1(u64 x) { return x * 297 + ga + sb[1]; }
-__attribute__((noinline)) static u64 sf1(u64 x) { return (x ^ 162) + sa + gb; }
-__attribute__((noinline)) u64 fn2(u64 x) { return x * 81 + ga + sb[2]; }
-__attribute__((noinline)) static u64 sf2(u64 x) { return (x ^ 815) + sa + gb; }
+__attribute__((noinline)) u64 fn0(u64 x) { return x * 453 + ga + sb[0]; }
+__attribute__((noinline)) static u64 sf0(u64 x) { return (x ^ 688) + sa + gb; }
+__attribute__((noinline)) u64 fn1(u64 x) { return x * 83 + ga + sb[1]; }
+__attribute__((noinline)) static u64 sf1(u64 x) { return (x ^ 837) + sa + gb; }
+__attribute__((noinline)) u64 fn2(u64 x) { return x * 517 + ga + sb[2]; }
+__attribute__((noinline)) static u64 sf2(u64 x) { return (x ^ 68) + sa + gb; }
 u64 (*const ftab[])(u64) = {fn0, fn1, fn2, sf0, sf1, sf2};
 u64 *ptab[] = { &ga, &gb, &gc_[2], &sa, &sb[1], &ext_a };
 __attribute__((constructor)) static void ctor_a(void) { ga += 1; }
